@@ -79,7 +79,7 @@ type MdnsManager struct {
 
 	mux,
 	muxAnnounced,
-	muxConfig sync.Mutex // guards autoaccept and mdnsProvider
+	muxConfig sync.Mutex // guards autoaccept, mdnsProvider and report
 }
 
 func shortenString(s string, maxLen int) string {
@@ -200,7 +200,7 @@ func (m *MdnsManager) Start(cb api.MdnsReportInterface) error {
 		return err
 	}
 
-	m.report = cb
+	m.setReport(cb)
 
 	// catch signals
 	go func() {
@@ -228,6 +228,21 @@ func (m *MdnsManager) Shutdown() {
 		provider.Shutdown()
 		m.setProvider(nil)
 	})
+}
+
+// the report callback is set by Start while the resolver goroutines already process entries
+func (m *MdnsManager) reportCallback() api.MdnsReportInterface {
+	m.muxConfig.Lock()
+	defer m.muxConfig.Unlock()
+
+	return m.report
+}
+
+func (m *MdnsManager) setReport(cb api.MdnsReportInterface) {
+	m.muxConfig.Lock()
+	defer m.muxConfig.Unlock()
+
+	m.report = cb
 }
 
 // the provider is set by Start and cleared by Shutdown while other goroutines announce
@@ -594,19 +609,21 @@ func (m *MdnsManager) processMdnsEntry(elements map[string]string, name, host st
 		logging.Log().Debug("mdns: new - ski:", ski, "name:", name, "brand:", brand, "model:", model, "typ:", deviceType, "serial:", serial, "categories:", categoriesStr, "identifier:", identifier, "register:", register, "host:", host, "port:", port, "addresses:", addresses)
 	}
 
-	if m.report == nil || !updated {
+	report := m.reportCallback()
+	if report == nil || !updated {
 		return
 	}
 
 	entries := m.copyMdnsEntries()
-	go m.report.ReportMdnsEntries(entries, true)
+	go report.ReportMdnsEntries(entries, true)
 }
 
 func (m *MdnsManager) RequestMdnsEntries() {
-	if m.report == nil {
+	report := m.reportCallback()
+	if report == nil {
 		return
 	}
 
 	entries := m.copyMdnsEntries()
-	go m.report.ReportMdnsEntries(entries, false)
+	go report.ReportMdnsEntries(entries, false)
 }
